@@ -4,6 +4,7 @@
      parity_of vars m := fold_right (fun v acc => xorb (testbit vars v && testbit m v) acc) false [0; ...; 31] *)
 From Coq Require Import List NArith Bool.
 From V Require Proofs.ExprsTie2.   (* expressions of cube.rs / ecube.rs / bdd.rs / canonization.rs, regenerated from the Rust source, equal the model's *)
+From V Require Import Spec.TwoLevelCost Checkers.Check Proofs.CheckSoundCube.   (* the extracted checkers and their soundness proofs, pinned at the end of this file *)
 From V Require Import Base.Res Model.Kernels Model.TwoLevel Spec.Bfun Proofs.Tabulate Proofs.EcubeProofs.
 Import ListNotations.
 Open Scope N_scope.
@@ -101,3 +102,64 @@ Print Assumptions C13_tabulate_sem.
 Print Assumptions C13_soes_to_lut_sem.
 Print Assumptions C13_soes_is_zero_sound.
 Print Assumptions C13_soes_is_one_sound.
+
+
+(* ---- soundness of the extracted checkers that decide this property's statement on the implementation's results *)
+Theorem C13_checker_spec_ecube_value_eq : forall e m,
+  spec_ecube_value e m = ecube_value e m.
+Proof. exact CheckSoundCube.spec_ecube_value_eq. Qed.
+
+Theorem C13_checker_ecube_value_iff : forall e m r,
+  chk_ecube_value e m r = true <-> r = ecube_value e m.
+Proof. exact CheckSoundCube.chk_ecube_value_iff. Qed.
+
+Theorem C13_checker_ecube_within_iff : forall k e,
+  ecube_within k e = true <-> evars e < 2 ^ N.of_nat k.
+Proof. exact CheckSoundCube.ecube_within_iff. Qed.
+
+Theorem C13_checker_ecube_xor_iff : forall k a b r,
+  (k <= 32)%nat -> ecube_within k a = true -> ecube_within k b = true ->
+  (chk_ecube_xor k a b r = true <-> r = ecube_xor a b).
+Proof. exact CheckSoundCube.chk_ecube_xor_iff. Qed.
+
+Theorem C13_checker_ecube_not_iff : forall k a r,
+  (k <= 32)%nat -> ecube_within k a = true ->
+  (chk_ecube_not k a r = true <-> r = ecube_not a).
+Proof. exact CheckSoundCube.chk_ecube_not_iff. Qed.
+
+Theorem C13_checker_spec_soes_value_eq : forall es m,
+  spec_soes_value es m = sem_soes es m.
+Proof. exact CheckSoundCube.spec_soes_value_eq. Qed.
+
+Theorem C13_checker_spec_soes_value_model : forall s m,
+  spec_soes_value (ocubes s) m = soes_value s m.
+Proof. exact CheckSoundCube.spec_soes_value_model. Qed.
+
+Theorem C13_checker_soes_or_iff : forall n a b r,
+  chk_soes_or n a b r = true <-> forall m, m < 2 ^ N.of_nat n -> sem_soes r m = sem_soes a m || sem_soes b m.
+Proof. exact CheckSoundCube.chk_soes_or_iff. Qed.
+
+Theorem C13_checker_soes_or_value_iff : forall n a b r,
+  chk_soes_or n (ocubes a) (ocubes b) (ocubes r) = true <->
+  forall m, m < 2 ^ N.of_nat n -> soes_value r m = soes_value a m || soes_value b m.
+Proof. exact CheckSoundCube.chk_soes_or_value_iff. Qed.
+
+Theorem C13_checker_soes_or_model : forall n a b r,
+  soes_or a b = Ok r -> chk_soes_or n (ocubes a) (ocubes b) (ocubes r) = true.
+Proof. exact CheckSoundCube.chk_soes_or_model. Qed.
+
+Theorem C13_checker_text_ecube : forall e ms w,
+  evars e < 2 ^ 32 -> chk_text (ecube_display e) (spec_ecube_value e) ms w = true.
+Proof. exact CheckSoundCube.chk_text_ecube. Qed.
+
+Print Assumptions C13_checker_spec_ecube_value_eq.
+Print Assumptions C13_checker_ecube_value_iff.
+Print Assumptions C13_checker_ecube_within_iff.
+Print Assumptions C13_checker_ecube_xor_iff.
+Print Assumptions C13_checker_ecube_not_iff.
+Print Assumptions C13_checker_spec_soes_value_eq.
+Print Assumptions C13_checker_spec_soes_value_model.
+Print Assumptions C13_checker_soes_or_iff.
+Print Assumptions C13_checker_soes_or_value_iff.
+Print Assumptions C13_checker_soes_or_model.
+Print Assumptions C13_checker_text_ecube.
